@@ -9,6 +9,7 @@ import (
 	"net/url"
 	"os"
 	"os/exec"
+	"runtime/debug"
 	"strconv"
 	"strings"
 	"sync"
@@ -88,6 +89,9 @@ type wresp struct {
 // ---------------------------------------------------------------- child side
 
 func runWorker(cfg *vh.Config) error {
+	// the nesting bound of the decoder (10^4 levels) needs a few tens of MB of stack; with the default
+	// limit of 1 GB unbounded recursion would first have to fill that before it shows
+	debug.SetMaxStack(96 << 20)
 	targets, err := loadTargets()
 	if err != nil {
 		return err
